@@ -492,6 +492,8 @@ func c03R2(c *core.Ctx, rule string) {
 	}
 }
 
+func c03R3as(c *core.Ctx, rule string) { c03R3(c, rule) }
+
 func c03R3(c *core.Ctx, rule string) {
 	c.Rule(rule, "every production implementation of contract.Contract: Validate(key) is true only if MasterID==key.Master(), Signature==key.Signature(), ID==key.Contract() and State==ContractStateAllowed", 4)
 	n := c.P.Type("internal/provider/contract", "Contract")
